@@ -13,8 +13,8 @@
     c02.hist.tx / c02.hist.blk <obj> <obsA> <obsB>   two observers on ONE object (see Driver/C01.lean) → <ansA>|<ansB>
     c02.objcross <kindA> <a> <kindB> <b>   a == b for objects of any two classes (NotImplemented → False)  → 1 | 0
     c02.pyhash <kind> <obj>   Model.objPyHashWith (for tx also Model.pyHashWith) run with the injective
-                              stand-in `pyHash bs = leNat (bs ++ [1])`; the harness decodes the byte string
-                              the model hashes and applies CPython's hash() to it      → hexadecimal | err:<family>
+                              stand-in `pyHash bs = leNat (bs ++ [1])` for both class tags: one value
+                              (only the relation is observable, never the value)       → same | err:<family>
 -/
 import Driver.Util
 import Driver.TxFmt
@@ -73,8 +73,8 @@ def pyHashOp (o : Obj) : Res String := do
   | .tx t =>
       let h2 ← pyHashWith pyHashStandIn ⟨.mutable, t⟩
       if h2 ≠ h then throw (.py "model-tx-hash-differs")
-      pure (hexOfInt h)
-  | _ => pure (hexOfInt h)
+      pure "same"
+  | _ => pure "same"
 
 def handle (op : String) (args : List String) : Option String :=
   match op, args with
